@@ -172,7 +172,7 @@ func cmdWorker(args []string) int {
 			res.Faults[k] += v
 		}
 		for k, v := range r.Sub {
-			res.Sub[k] = append(res.Sub[k], v)
+			res.Sub[k] = append(res.Sub[k], v...)
 		}
 		res.Steps += int64(r.Steps)
 		res.Pre += int64(r.Pre)
